@@ -22,13 +22,15 @@ use lightning_signer::signer::derive::KeyDerivationStyle;
 use lightning_signer::lightning::types::payment::PaymentHash;
 use lightning_signer::tx::tx::{CommitmentInfo2, HTLCInfo2};
 use lightning_signer::util::test_utils::{
-    channel_commitment, counterparty_sign_holder_commitment, make_test_channel_setup,
+    build_tx_scripts, channel_commitment, counterparty_sign_holder_commitment, make_test_channel_setup,
     make_test_counterparty_keys, TestChannelContext, TestNodeContext,
 };
+use lightning_signer::bitcoin::{ScriptBuf, Transaction};
+use lightning_signer::channel::Channel;
 use serde_json::json;
 use vharness::*;
 use vls_protocol::model::{self, BitcoinSignature, PubKey};
-use vls_protocol::msgs::{self, Message};
+use vls_protocol::msgs::{self, Message, SerBolt};
 use vls_protocol::serde_bolt::{Array, Octets};
 use vls_protocol_signer::approver::PositiveApprover;
 use vls_protocol_signer::handler::{ChannelHandler, Handler, InitHandler, RootHandler};
@@ -171,6 +173,80 @@ impl Sys {
         let (channel_id, _) = node.new_channel(dbid, &peer_id, &node).expect("new_channel");
         let handler = make_handler(&node, proto, peer_id, dbid);
         Sys { world, node, node_id, channel_id, peer_id, dbid, proto, handler, chan_ctx: None, secp }
+    }
+
+    /// what the phase-1 entry point wants for holder commitment `n` with content `id`: the
+    /// transaction itself and the witness script of every output (None when the channel cannot
+    /// even derive the point of `n`)
+    fn phase1_args(&self, n: u64, id: u64) -> Option<(Transaction, Vec<Vec<u8>>)> {
+        let next = self.estate()?.next_holder_commit_num;
+        if n > next + 1 {
+            return None;
+        }
+        let (to_h, to_c) = holder_content(id);
+        let nctx = self.node_ctx();
+        let cctx = self.chan_ctx.as_ref()?;
+        let ctx = channel_commitment(&nctx, cctx, n, 1100, to_h, to_c, vec![], incoming_htlcs(id));
+        let tx = ctx.tx.as_ref()?.trust().built_transaction().transaction.clone();
+        let htlcs = Channel::htlcs_info2_to_oic(&vec![], &incoming_htlcs(id));
+        self.node
+            .with_channel(&self.channel_id, |chan| {
+                let cp = chan.make_channel_parameters();
+                let params = cp.as_holder_broadcastable();
+                let pt = chan.get_per_commitment_point(n)?;
+                let hp = chan.keys.pubkeys();
+                let cpp = chan.counterparty_pubkeys();
+                let keys = lightning_signer::lightning::ln::chan_utils::TxCreationKeys::derive_new(
+                    &Secp256k1::new(),
+                    &pt,
+                    &hp.delayed_payment_basepoint,
+                    &hp.htlc_basepoint,
+                    &cpp.revocation_basepoint,
+                    &cpp.htlc_basepoint,
+                );
+                let scripts = build_tx_scripts(
+                    &keys,
+                    to_h,
+                    to_c,
+                    &htlcs,
+                    &params,
+                    &chan.keys.pubkeys().funding_pubkey,
+                    &chan.setup.counterparty_points.funding_pubkey,
+                )
+                .expect("scripts");
+                Ok(scripts.iter().map(|s| s.as_bytes().to_vec()).collect::<Vec<_>>())
+            })
+            .ok()
+            .map(|w| (tx, w))
+    }
+
+    /// the phase-1 arguments for counterparty commitment `n` with content `id` under `pt`
+    fn cp_phase1_args(&self, pt: &PublicKey, n: u64, id: u64) -> Option<(Transaction, Vec<Vec<u8>>)> {
+        if n > INITIAL {
+            return None;
+        }
+        let (to_h, to_c) = cp_content(id);
+        let htlcs = Channel::htlcs_info2_to_oic(&incoming_htlcs(id), &vec![]);
+        self.node
+            .with_channel(&self.channel_id, |chan| {
+                let cp = chan.make_channel_parameters();
+                let params = cp.as_counterparty_broadcastable();
+                let keys = chan.make_counterparty_tx_keys(pt);
+                let ctx = chan.make_counterparty_commitment_tx(pt, n, 1100, to_h, to_c, htlcs.clone());
+                let scripts = build_tx_scripts(
+                    &keys,
+                    to_c,
+                    to_h,
+                    &htlcs,
+                    &params,
+                    &chan.keys.pubkeys().funding_pubkey,
+                    &chan.setup.counterparty_points.funding_pubkey,
+                )
+                .expect("scripts");
+                let tx = ctx.trust().built_transaction().transaction.clone();
+                Ok((tx, scripts.iter().map(|s| s.as_bytes().to_vec()).collect::<Vec<_>>()))
+            })
+            .ok()
     }
 
     fn node_ctx(&self) -> TestNodeContext {
@@ -525,9 +601,13 @@ fn do_op(sys: &mut Sys, rng: &mut Rng, extremes: bool, script: Option<(u64, u64)
             let short = !sig_ok && sigs.as_ref().map(|s| !s.1.is_empty()).unwrap_or(false) && rng.chance(1, 3);
             let (sig, hs) = bad_or_good_sigs(sys, rng, n, id, &sigs, sig_ok, short);
             let sigq = if short { "SShort" } else { coq_bool(sig_ok) };
+            // a third of the requests go through the phase-1 entry point (transaction + witness
+            // scripts, decoded and recomposed by the signer); same request as far as the model goes
+            let p1 = if rng.chance(1, 3) { sys.phase1_args(n, id) } else { None };
             let r = guarded(|| {
-                match node.with_channel(&cid, |c| {
-                    c.validate_holder_commitment_tx_phase2(n, 1100, to_h, to_c, vec![], incoming_htlcs(id), &sig, &hs)
+                match node.with_channel(&cid, |c| match &p1 {
+                    Some((tx, ws)) => c.validate_holder_commitment_tx(tx, ws, n, 1100, vec![], incoming_htlcs(id), &sig, &hs),
+                    None => c.validate_holder_commitment_tx_phase2(n, 1100, to_h, to_c, vec![], incoming_htlcs(id), &sig, &hs),
                 }) {
                     Ok(()) => Obs::ok(),
                     Err(_) => Obs::refused(),
@@ -644,8 +724,10 @@ fn do_op(sys: &mut Sys, rng: &mut Rng, extremes: bool, script: Option<(u64, u64)
             };
             let pol_ok = content_ok(id, n);
             let (to_h, to_c) = cp_content(id);
-            let r = guarded(|| match node.with_channel(&cid, |c| {
-                c.sign_counterparty_commitment_tx_phase2(&pt, n, 1100, to_h, to_c, incoming_htlcs(id), vec![])
+            let p1 = if rng.chance(1, 3) { sys.cp_phase1_args(&pt, n, id) } else { None };
+            let r = guarded(|| match node.with_channel(&cid, |c| match &p1 {
+                Some((tx, ws)) => c.sign_counterparty_commitment_tx(tx, ws, &pt, n, 1100, incoming_htlcs(id), vec![]).map(|_| ()),
+                None => c.sign_counterparty_commitment_tx_phase2(&pt, n, 1100, to_h, to_c, incoming_htlcs(id), vec![]).map(|_| ()),
             }) {
                 Ok(_) => Obs { cpsig: Some((n, pt_id, id)), ..Obs::ok() },
                 Err(_) => Obs::refused(),
@@ -729,8 +811,47 @@ fn do_op(sys: &mut Sys, rng: &mut Rng, extremes: bool, script: Option<(u64, u64)
                 signature: to_bsig(&sig),
                 htlc_signatures: Array(hs.iter().map(to_bsig).collect()),
             };
+            // a third of them as the phase-1 message: the transaction itself, with the witness
+            // scripts carried by a PSBT
+            let htlcs_wire = || {
+                Array(
+                    incoming_htlcs(id)
+                        .iter()
+                        .map(|h| model::Htlc {
+                            side: model::Htlc::REMOTE,
+                            amount: h.value_sat * 1000,
+                            payment_hash: model::Sha256(h.payment_hash.0),
+                            ctlv_expiry: h.cltv_expiry,
+                        })
+                        .collect(),
+                )
+            };
+            let p1 = if rng.chance(1, 3) { sys.phase1_args(n, id) } else { None };
+            let msg = match p1 {
+                Some((tx, ws)) => {
+                    let mut psbt = lightning_signer::bitcoin::psbt::Psbt::from_unsigned_tx(tx.clone()).expect("psbt");
+                    for (o, w) in psbt.outputs.iter_mut().zip(ws.iter()) {
+                        if !w.is_empty() {
+                            o.witness_script = Some(ScriptBuf::from(w.clone()));
+                        }
+                    }
+                    (msgs::ValidateCommitmentTx {
+                        tx: vls_protocol::serde_bolt::WithSize(tx),
+                        psbt: vls_protocol::serde_bolt::WithSize(psbt.into()),
+                        htlcs: htlcs_wire(),
+                        commitment_number: n,
+                        feerate: 1100,
+                        signature: to_bsig(&sig),
+                        htlc_signatures: Array(hs.iter().map(to_bsig).collect()),
+                    })
+                    .as_vec()
+                }
+                None => m.as_vec(),
+            };
+            // the message crosses the wire like any other
+            let msg = msgs::from_vec(msg).expect("request survives the wire");
             let sysr: &Sys = sys;
-            let r = guarded(|| match sysr.handler.handle(Message::ValidateCommitmentTx2(m)) {
+            let r = guarded(|| match sysr.handler.handle(msg) {
                 Ok(reply) => {
                     let bytes = reply.as_vec();
                     match msgs::from_vec(bytes) {
@@ -885,7 +1006,13 @@ fn run(args: &Args) {
             }
             if o.st != "Abort" && op != "Restart" {
                 let shadow = sys.world.restart(&sys.node_id);
-                let d = fingerprint_diff(&fingerprint(&sys.node), &fingerprint(&shadow));
+                let mut d = fingerprint_diff(&fingerprint(&sys.node), &fingerprint(&shadow));
+                if !warn.is_empty() {
+                    // with a rule downgraded to a warning the signer carries on past a failed
+                    // commitment-number check: what the payment ledger then holds is not a
+                    // function of the stored commitments (outside the property: policy is off)
+                    d.retain(|x| !x.starts_with("payments"));
+                }
                 if !d.is_empty() && !mon.violations.iter().any(|v| v.starts_with("C11")) {
                     mon.violations.push(format!("C11: after {} ({}) a restart would differ: {}", op, o.st, d.join("; ")));
                 }
